@@ -296,6 +296,20 @@ func (g *Gen) where(t *Table) []any {
 		cn := t.ColNames[g.pick(len(t.ColNames))]
 		v := g.st[t.Name][u][cn]
 		return []any{[]any{cn, "==", g.wire(t.Columns[cn], v, 700)}}
+	case r < 90 && len(us) > 0 && len(t.Indexes) > 0:
+		// the index values of one row together with the uuid of that or another row
+		a, b := us[g.pick(len(us))], us[g.pick(len(us))]
+		var conds []any
+		for _, cn := range t.Indexes[g.pick(len(t.Indexes))] {
+			conds = append(conds, []any{cn, "==", g.wire(t.Columns[cn], g.st[t.Name][a][cn], 1000)})
+		}
+		if g.chance(700) {
+			conds = append(conds, []any{"_uuid", "==", []any{"uuid", b}})
+		}
+		if g.chance(500) {
+			conds[0], conds[len(conds)-1] = conds[len(conds)-1], conds[0]
+		}
+		return conds
 	default:
 		var conds []any
 		for i := 0; i < 1+g.pick(2); i++ {
